@@ -38,9 +38,15 @@ func (p *Prog) inlinableHelper(callee *ssa.Function) bool {
 	if ok {
 		for _, b := range callee.Blocks {
 			for _, in := range b.Instrs {
-				switch in.(type) {
-				case *ssa.Go, *ssa.Defer, *ssa.RunDefers:
+				switch x := in.(type) {
+				case *ssa.Go:
 					ok = false
+				case *ssa.Defer:
+					// a lock-scope helper (Lock; defer Unlock; body) is seen
+					// through: the deferred Unlock is its exit
+					if d := p.calleeDesc(x); d != "sync.Mutex.Unlock" && d != "sync.RWMutex.Unlock" && d != "sync.RWMutex.RUnlock" {
+						ok = false
+					}
 				}
 			}
 		}
